@@ -322,6 +322,12 @@ def run_spec(spec):
         a1.coeff, b1.coeff = 2.0, -0.5
         return close(L.dense(a1.add(b1)), 2.0 * da - 0.5 * db)
     chk("add-coeff", c_add_coeff)
+
+    def c_add_coeff_equal():
+        a1, b1 = a.copy(), b.copy()
+        a1.coeff, b1.coeff = 2.0, 2.0
+        return close(L.dense(a1.add(b1)), 2.0 * (da + db))
+    chk("add-coeff-equal", c_add_coeff_equal)
     cz = complex(*spec.get("cz", [0.5, -1.25]))
     chk("scale-real", lambda: close(L.dense(a.scale(-1.75)), -1.75 * da))
     chk("scale-complex", lambda: close(L.dense(a.scale(cz)), cz * da))
